@@ -29,6 +29,7 @@ class HealthCheckServer:
         )
         self._server_protocol: asyncio.AbstractServer | None = None
         self._server: asyncio.AbstractServer | None = None
+        self._transports: set[asyncio.BaseTransport] = set()
         self._health_status = HealthCheckStatus.OK
 
     async def start(self) -> None:
@@ -49,6 +50,9 @@ class HealthCheckServer:
     async def stop(self) -> None:
         if self._server is not None:
             self._server.close()
+            # a client which keeps its connection open must not hold up (or fail) the shutdown
+            for transport in list(self._transports):
+                transport.abort()  # type: ignore[attr-defined]
             await self._server.wait_closed()
             logger.info("Stopped health check server.")
 
@@ -75,6 +79,10 @@ class _HttpServerProtocol(asyncio.Protocol):
 
     def connection_made(self, transport: asyncio.BaseTransport) -> None:
         self.transport: asyncio.WriteTransport = transport  # type: ignore[assignment]
+        self.server._transports.add(transport)
+
+    def connection_lost(self, exc: Exception | None) -> None:  # noqa: ARG002
+        self.server._transports.discard(self.transport)
 
     def data_received(self, data: bytes) -> None:
         message = data.decode()
